@@ -191,6 +191,16 @@ theorem collectGo_none : ∀ (pending acc : List Line) (ln : Int), (∀ l ∈ pe
     simp [collectGo, h l (by simp), collectGo_none t (l :: acc) (ln + 1) (fun x hx => h x (by simp [hx]))]
 
 
+theorem natDigits_length_le (n k : Nat) (hk : 0 < k) (h : n < 10 ^ k) : (natDigits n).length ≤ k := by
+  have := (Nat.length_toDigits_le_iff (b := 10) (n := n) (by omega) hk).mpr h
+  simpa [natDigits, toString, Nat.repr] using this
+
+theorem rjust_length (w : Nat) (s : Line) (h : s.length ≤ w) : (rjust w s).length = w := by
+  simp [rjust]; omega
+
+theorem strip_space_cons (l : Line) : strip (' ' :: l) = strip l := by
+  simp [strip, lstrip, isWs]
+
 /-! ### pdb.load_one's loop over the blocks of a written frame -/
 
 section pdb
@@ -233,6 +243,1010 @@ theorem pdbGo_conects (hb : ∀ b, pb (pCONECT ++ fb b) = some b) :
     simpa [pCONECT] using ih
 
 
+/-- continuation record `TITLE` + `str(i+2).rjust(5)` + `' '` + text: the reader's `line[10:].strip()` gives the text -/
+theorem pdbGo_title_cont (i : Nat) (hi : i + 2 < 100000) (l : Line) (t : List Line) (ln : Int) (acc : PdbFrame α β)
+    (found : Bool) :
+    pdbGo pa pb ((pTITLE ++ rjust (10 - pTITLE.length) (natDigits (i + 2)) ++ [' '] ++ l) :: t) ln acc found =
+      pdbGo pa pb t (ln + 1) { acc with titles := acc.titles ++ [strip l] } found := by
+  have hlen := rjust_length 5 (natDigits (i + 2)) (natDigits_length_le _ 5 (by omega) (by omega))
+  obtain ⟨c1, c2, c3, c4, c5, hr⟩ : ∃ c1 c2 c3 c4 c5, rjust 5 (natDigits (i + 2)) = [c1, c2, c3, c4, c5] := by
+    match h : rjust 5 (natDigits (i + 2)), hlen with
+    | [c1, c2, c3, c4, c5], _ => exact ⟨c1, c2, c3, c4, c5, rfl⟩
+  have h5 : 10 - pTITLE.length = 5 := by decide
+  rw [h5, hr]
+  simp [pdbGo, pTITLE, startsWith, strip_space_cons]
+
+theorem pdbGo_compnd_cont (i : Nat) (hi : i + 2 < 10000) (l : Line) (t : List Line) (ln : Int) (acc : PdbFrame α β)
+    (found : Bool) :
+    pdbGo pa pb ((pCOMPND ++ rjust (10 - pCOMPND.length) (natDigits (i + 2)) ++ [' '] ++ l) :: t) ln acc found =
+      pdbGo pa pb t (ln + 1) { acc with compnd := acc.compnd ++ [strip l] } found := by
+  have hlen := rjust_length 4 (natDigits (i + 2)) (natDigits_length_le _ 4 (by omega) (by omega))
+  obtain ⟨c1, c2, c3, c4, hr⟩ : ∃ c1 c2 c3 c4, rjust 4 (natDigits (i + 2)) = [c1, c2, c3, c4] := by
+    match h : rjust 4 (natDigits (i + 2)), hlen with
+    | [c1, c2, c3, c4], _ => exact ⟨c1, c2, c3, c4, rfl⟩
+  have h5 : 10 - pCOMPND.length = 4 := by decide
+  rw [h5, hr]
+  simp [pdbGo, pTITLE, pCOMPND, startsWith, strip_space_cons]
+
+theorem pdbGo_titleAux : ∀ (ls : List Line) (i : Nat), i + ls.length + 1 < 100000 → ∀ (t : List Line) (ln : Int)
+    (acc : PdbFrame α β) (found : Bool),
+    pdbGo pa pb (pdbMultiAux pTITLE i ls ++ t) ln acc found =
+      pdbGo pa pb t (ln + ls.length) { acc with titles := acc.titles ++ ls.map strip } found
+  | [], _, _, t, ln, acc, found => by simp [pdbMultiAux]
+  | l :: ls, i, h, t, ln, acc, found => by
+    have ih := pdbGo_titleAux ls (i + 1) (by simp at h; omega) t (ln + 1)
+      { acc with titles := acc.titles ++ [strip l] } found
+    simp only [pdbMultiAux, List.cons_append]
+    rw [pdbGo_title_cont pa pb i (by simp at h; omega), ih]
+    simp only [List.length_cons, List.map_cons, List.append_assoc, List.singleton_append]
+    congr 1; push_cast; omega
+
+theorem pdbGo_compndAux : ∀ (ls : List Line) (i : Nat), i + ls.length + 1 < 10000 → ∀ (t : List Line) (ln : Int)
+    (acc : PdbFrame α β) (found : Bool),
+    pdbGo pa pb (pdbMultiAux pCOMPND i ls ++ t) ln acc found =
+      pdbGo pa pb t (ln + ls.length) { acc with compnd := acc.compnd ++ ls.map strip } found
+  | [], _, _, t, ln, acc, found => by simp [pdbMultiAux]
+  | l :: ls, i, h, t, ln, acc, found => by
+    have ih := pdbGo_compndAux ls (i + 1) (by simp at h; omega) t (ln + 1)
+      { acc with compnd := acc.compnd ++ [strip l] } found
+    simp only [pdbMultiAux, List.cons_append]
+    rw [pdbGo_compnd_cont pa pb i (by simp at h; omega), ih]
+    simp only [List.length_cons, List.map_cons, List.append_assoc, List.singleton_append]
+    congr 1; push_cast; omega
+
+/-- `_dump_multiline_str(f, "TITLE", text)` read back: one title entry per line, stripped -/
+theorem pdbGo_multi_title (ls : List Line) (h : ls.length < 99999) (t : List Line) (ln : Int)
+    (acc : PdbFrame α β) (found : Bool) :
+    pdbGo pa pb (pdbMulti pTITLE ls ++ t) ln acc found =
+      pdbGo pa pb t (ln + ls.length) { acc with titles := acc.titles ++ ls.map strip } found := by
+  cases ls with
+  | nil => simp [pdbMulti]
+  | cons l ls =>
+    simp only [pdbMulti, List.cons_append]
+    rw [pdbGo_title, pdbGo_titleAux pa pb ls 0 (by simp at h; omega)]
+    simp only [List.length_cons, List.map_cons, List.append_assoc, List.singleton_append]
+    congr 1; push_cast; omega
+
+theorem pdbGo_multi_compnd (ls : List Line) (h : ls.length < 9999) (t : List Line) (ln : Int)
+    (acc : PdbFrame α β) (found : Bool) :
+    pdbGo pa pb (pdbMulti pCOMPND ls ++ t) ln acc found =
+      pdbGo pa pb t (ln + ls.length) { acc with compnd := acc.compnd ++ ls.map strip } found := by
+  cases ls with
+  | nil => simp [pdbMulti]
+  | cons l ls =>
+    simp only [pdbMulti, List.cons_append]
+    rw [pdbGo_compnd, pdbGo_compndAux pa pb ls 0 (by simp at h; omega)]
+    simp only [List.length_cons, List.map_cons, List.append_assoc, List.singleton_append]
+    congr 1; push_cast; omega
+
+/-- a line `pdb.load_one` passes over as long as no ATOM/HETATM record of the frame was read: anything but a TITLE,
+    COMPND, ATOM, HETATM or CONECT record (MODEL, CRYST1, REMARK, MASTER, blank lines, and also END / ENDMDL, which
+    end a frame only after an atom record) -/
+def pdbSkip (l : Line) : Bool :=
+  !startsWith pTITLE l && !startsWith pCOMPND l && !startsWith pATOM l && !startsWith pHETATM l &&
+    !startsWith pCONECT l
+
+def pdbIsAtom (l : Line) : Bool := startsWith pATOM l || startsWith pHETATM l
+
+theorem pdbGo_skips : ∀ (sk : List Line), (∀ l ∈ sk, pdbSkip l = true) → ∀ (t : List Line) (ln : Int)
+    (acc : PdbFrame α β), pdbGo pa pb (sk ++ t) ln acc false = pdbGo pa pb t (ln + sk.length) acc false
+  | [], _, t, ln, acc => by simp
+  | l :: sk, h, t, ln, acc => by
+    have hl := h l (by simp)
+    simp only [pdbSkip, Bool.and_eq_true, Bool.not_eq_true'] at hl
+    obtain ⟨⟨⟨⟨h1, h2⟩, h3⟩, h4⟩, h5⟩ := hl
+    have ih := pdbGo_skips sk (fun x hx => h x (by simp [hx])) t (ln + 1) acc
+    simp only [List.cons_append, pdbGo, h1, h2, h3, h4, h5, Bool.or_self, Bool.and_false, if_false, ih,
+      List.length_cons, Bool.false_eq_true]
+    congr 1; push_cast; omega
+
+theorem atom_not_title (l : Line) (h : pdbIsAtom l = true) :
+    startsWith pTITLE l = false ∧ startsWith pCOMPND l = false := by
+  cases l with
+  | nil => simp [pdbIsAtom, startsWith, pATOM, pHETATM] at h
+  | cons c t =>
+    simp [pdbIsAtom, startsWith, pATOM, pHETATM] at h
+    rcases h with ⟨rfl, _⟩ | ⟨rfl, _⟩ <;> simp [startsWith, pTITLE, pCOMPND, List.isPrefixOf]
+
+/-- a sequence of lines without any END record whose ATOM/HETATM and CONECT records all parse: `load_one` reaches
+    the end of the file; with an atom record seen it returns the data read so far with `endReached = false` (the
+    LoadWarning "END is not found"), without one it raises "Molecule could not be read" -/
+theorem pdbGo_no_end : ∀ (ls : List Line),
+    (∀ l ∈ ls, startsWith pEND l = false ∧ (pdbIsAtom l = true → (pa l).isSome = true) ∧
+      (startsWith pCONECT l = true → (pb l).isSome = true)) →
+    ∀ (ln : Int) (acc : PdbFrame α β) (found : Bool),
+      ((found || ls.any pdbIsAtom) = true → ∃ g ln', pdbGo pa pb ls ln acc found = .ok g ⟨[], ln'⟩ ∧
+        g.endReached = false) ∧
+      ((found || ls.any pdbIsAtom) = false → ∃ ln', pdbGo pa pb ls ln acc found = .raise .loadError ⟨[], ln'⟩)
+  | [], _, ln, acc, found => by
+    cases found <;> simp [pdbGo]
+  | l :: t, h, ln, acc, found => by
+    obtain ⟨he, hat, hco⟩ := h l (by simp)
+    have ht := fun x hx => h x (List.mem_cons_of_mem l hx)
+    by_cases hA : pdbIsAtom l = true
+    · obtain ⟨h1, h2⟩ := atom_not_title l hA
+      obtain ⟨a, hpa⟩ := Option.isSome_iff_exists.mp (hat hA)
+      have ih := pdbGo_no_end t ht (ln + 1) { acc with atoms := acc.atoms ++ [a] } true
+      have hA' : (startsWith pATOM l || startsWith pHETATM l) = true := hA
+      simp only [pdbGo, h1, h2, hA', hpa, if_true, if_false, List.any_cons, hA, Bool.or_true, Bool.true_or,
+        Bool.false_eq_true] at ih ⊢
+      exact ⟨fun _ => ih.1 trivial, fun h => by simp at h⟩
+    · have hA' : (startsWith pATOM l || startsWith pHETATM l) = false := by simpa [pdbIsAtom] using hA
+      have hAf : pdbIsAtom l = false := by simpa using hA
+      simp only [List.any_cons, hAf, Bool.false_or]
+      unfold pdbGo
+      split
+      · exact pdbGo_no_end t ht _ _ _
+      · split
+        · exact pdbGo_no_end t ht _ _ _
+        · simp only [hA', Bool.false_eq_true, if_false]
+          split
+          · rename_i hc
+            obtain ⟨b, hpb⟩ := Option.isSome_iff_exists.mp (hco hc)
+            simp only [hpb]
+            exact pdbGo_no_end t ht _ _ _
+          · simp only [he, Bool.false_and, Bool.false_eq_true, if_false]
+            exact pdbGo_no_end t ht _ _ _
+
+
+/-- a PDB frame as it appears in a file: lines passed over (`pre`: e.g. END/MASTER of a previous frame, CRYST1,
+    REMARK), TITLE and COMPND records with continuation numbers, more passed-over lines (`mid`: e.g. `MODEL n`), the
+    ATOM records, the CONECT records and a terminating record that starts with `END` (`END`, `ENDMDL`). -/
+structure PdbBlock (α β : Type) where
+  pre : List Line
+  tls : List Line
+  cls : List Line
+  mid : List Line
+  atoms : List α
+  conects : List β
+  endTail : Line
+
+def pdbBlockLines (b : PdbBlock α β) : List Line :=
+  b.pre ++ (pdbMulti pTITLE b.tls ++ (pdbMulti pCOMPND b.cls ++ (b.mid ++
+    (b.atoms.map (fun a => pATOM ++ [' ', ' '] ++ fa a) ++ (b.conects.map (fun c => pCONECT ++ fb c) ++
+      [pEND ++ b.endTail])))))
+
+def pdbBlockFrame (b : PdbBlock α β) : PdbFrame α β :=
+  ⟨b.tls.map strip, b.cls.map strip, b.atoms, b.conects, true⟩
+
+/-- domain of the frame law: at least one atom record (a frame without one has no record the reader recognises
+    as a frame, see `pdb_empty_frame_merged_violated`), fewer than 99 999 title and 9 999 compound lines (beyond
+    that the continuation number no longer fits its columns), `pre`/`mid` free of records the reader interprets -/
+def PdbBlockOk (b : PdbBlock α β) : Prop :=
+  b.atoms ≠ [] ∧ (∀ l ∈ b.pre, pdbSkip l = true) ∧ (∀ l ∈ b.mid, pdbSkip l = true) ∧
+    b.tls.length < 99999 ∧ b.cls.length < 9999
+
+/-- the frame `dump_one` writes -/
+def pdbBlockOfObj (o : PdbObj α β) : PdbBlock α β :=
+  ⟨[], splitNl (titleOr o.title), (match o.compnd with | none => [] | some c => splitNl c), [], o.atoms, o.conects, []⟩
+
+theorem pdbBlockLines_ofObj (o : PdbObj α β) : pdbBlockLines fa fb (pdbBlockOfObj o) = pdbDumpOne fa fb o := by
+  obtain ⟨t, c, a, b⟩ := o
+  cases c <;> simp [pdbBlockLines, pdbBlockOfObj, pdbDumpOne, pdbMulti]
+
+theorem pdbBlockFrame_ofObj (o : PdbObj α β) : pdbBlockFrame (pdbBlockOfObj o) = pdbNorm o := by
+  obtain ⟨t, c, a, b⟩ := o
+  cases c <;> simp [pdbBlockFrame, pdbBlockOfObj, pdbNorm]
+
+theorem pdbBlockLines_ne (b : PdbBlock α β) : pdbBlockLines fa fb b ≠ [] := by
+  simp [pdbBlockLines]
+
+/-- **prefix-consumption law for PDB frames** -/
+theorem pdb_block_law (ha : ∀ a, pa (pATOM ++ [' ', ' '] ++ fa a) = some a)
+    (hb : ∀ b, pb (pCONECT ++ fb b) = some b) (b : PdbBlock α β) (hok : PdbBlockOk b) (rest : List Line) (ln : Int) :
+    ∃ ln', pdbLoadOne pa pb ⟨pdbBlockLines fa fb b ++ rest, ln⟩ = .ok (pdbBlockFrame b) ⟨rest, ln'⟩ := by
+  obtain ⟨pre, tls, cls, mid, atoms, conects, e⟩ := b
+  obtain ⟨hat, hpre, hmid, htl, hcl⟩ := hok
+  simp only at hat hpre hmid htl hcl
+  have hfound : (false || !atoms.isEmpty) = true := by
+    cases atoms with
+    | nil => exact absurd rfl hat
+    | cons _ _ => rfl
+  obtain ⟨ln1, h1⟩ := pdbGo_atoms pa fa pb ha atoms
+    (conects.map (fun c => pCONECT ++ fb c) ++ ((pEND ++ e) :: rest))
+    (ln + pre.length + tls.length + cls.length + mid.length) ⟨[] ++ tls.map strip, [] ++ cls.map strip, [], [], false⟩ false
+  obtain ⟨ln2, h2⟩ := pdbGo_conects pa pb fb hb conects ((pEND ++ e) :: rest) ln1
+    ⟨[] ++ tls.map strip, [] ++ cls.map strip, [] ++ atoms, [], false⟩ (false || !atoms.isEmpty)
+  refine ⟨ln2 + 1, ?_⟩
+  have hshape : pdbBlockLines fa fb ⟨pre, tls, cls, mid, atoms, conects, e⟩ ++ rest =
+      pre ++ (pdbMulti pTITLE tls ++ (pdbMulti pCOMPND cls ++ (mid ++
+        (atoms.map (fun a => pATOM ++ [' ', ' '] ++ fa a) ++ (conects.map (fun c => pCONECT ++ fb c) ++
+          ((pEND ++ e) :: rest)))))) := by
+    simp [pdbBlockLines]
+  simp only [pdbLoadOne, hshape]
+  rw [pdbGo_skips pa pb pre hpre, pdbGo_multi_title pa pb tls htl, pdbGo_multi_compnd pa pb cls hcl,
+    pdbGo_skips pa pb mid hmid]
+  simp only [List.singleton_append] at h1 h2 ⊢
+  rw [h1, h2, hfound]
+  simp [pdbGo, pEND, pTITLE, pCOMPND, pATOM, pHETATM, pCONECT, startsWith, pdbBlockFrame]
+
+/-- lines without any ATOM/HETATM/CONECT record: "Molecule could not be read" at the end of the file -/
+theorem pdbGo_no_atoms : ∀ (t : List Line) (ln : Int) (acc : PdbFrame α β),
+    (∀ l ∈ t, startsWith pATOM l = false ∧ startsWith pHETATM l = false ∧ startsWith pCONECT l = false) →
+    ∃ ln', pdbGo pa pb t ln acc false = .raise .loadError ⟨[], ln'⟩
+  | [], ln, acc, _ => ⟨ln + 1, by simp [pdbGo]⟩
+  | l :: t, ln, acc, hl => by
+    obtain ⟨h1, h2, h3⟩ := hl l (by simp)
+    have ht := fun x hx => hl x (List.mem_cons_of_mem l hx)
+    unfold pdbGo
+    split
+    · exact pdbGo_no_atoms t _ _ ht
+    · split
+      · exact pdbGo_no_atoms t _ _ ht
+      · simp [h1, h2, h3]
+        exact pdbGo_no_atoms t _ _ ht
+
+/-- domain of the PDB round trip for written frames -/
+def PdbDom (o : PdbObj α β) : Prop :=
+  o.atoms ≠ [] ∧ (splitNl (titleOr o.title)).length < 99999 ∧ ∀ c, o.compnd = some c → (splitNl c).length < 9999
+
+theorem pdbBlockOk_ofObj (o : PdbObj α β) (h : PdbDom o) : PdbBlockOk (pdbBlockOfObj o) := by
+  obtain ⟨t, c, a, b⟩ := o
+  obtain ⟨h1, h2, h3⟩ := h
+  refine ⟨h1, by simp [pdbBlockOfObj], by simp [pdbBlockOfObj], h2, ?_⟩
+  cases c with
+  | none => simp [pdbBlockOfObj]
+  | some c => exact h3 c rfl
+
+theorem pdb_flatMap_ofObj (os : List (PdbObj α β)) :
+    (os.map pdbBlockOfObj).flatMap (pdbBlockLines fa fb) = os.flatMap (pdbDumpOne fa fb) := by
+  induction os with
+  | nil => rfl
+  | cons o os ih => simp [pdbBlockLines_ofObj, ih]
+
+theorem pdb_map_ofObj (os : List (PdbObj α β)) : (os.map pdbBlockOfObj).map pdbBlockFrame = os.map pdbNorm := by
+  induction os with
+  | nil => rfl
+  | cons o os ih => simp [pdbBlockFrame_ofObj]
+
+theorem pdb_step (ha : ∀ a, pa (pATOM ++ [' ', ' '] ++ fa a) = some a) (hb : ∀ b, pb (pCONECT ++ fb b) = some b)
+    (b : PdbBlock α β) (hok : PdbBlockOk b) (rest : List Line) (ln : Int) (first : Bool) :
+    ∃ s' ln', runPeek pdbSkel.peek first ⟨pdbBlockLines fa fb b ++ rest, ln⟩ = .go s' ∧
+      pdbLoadOne pa pb s' = .ok (pdbBlockFrame b) ⟨rest, ln'⟩ := by
+  obtain ⟨ln', hl⟩ := pdb_block_law pa fa pb fb ha hb b hok rest ln
+  exact ⟨_, ln', rfl, hl⟩
+
+theorem mem_pdbMultiAux (key l : Line) : ∀ (ls : List Line) (i : Nat), l ∈ pdbMultiAux key i ls → ∃ r, l = key ++ r
+  | [], _, h => by simp [pdbMultiAux] at h
+  | x :: ls, i, h => by
+    simp only [pdbMultiAux, List.mem_cons] at h
+    cases h with
+    | inl h => exact ⟨rjust (10 - key.length) (natDigits (i + 2)) ++ ([' '] ++ x), by rw [h]; simp only [List.append_assoc]⟩
+    | inr h => exact mem_pdbMultiAux key l ls (i + 1) h
+
+theorem mem_pdbMulti (key l : Line) (ls : List Line) (h : l ∈ pdbMulti key ls) : ∃ r, l = key ++ r := by
+  cases ls with
+  | nil => simp [pdbMulti] at h
+  | cons x ls =>
+    simp only [pdbMulti, List.mem_cons] at h
+    cases h with
+    | inl h => exact ⟨List.replicate (10 - key.length) ' ' ++ x, by rw [h]; simp only [ljust, List.append_assoc]⟩
+    | inr h => exact mem_pdbMultiAux key l ls 0 h
+
+/-- the TITLE and COMPND records of a written frame -/
+def pdbHeader (o : PdbObj α β) : List Line :=
+  pdbMulti pTITLE (splitNl (titleOr o.title))
+    ++ (match o.compnd with | none => [] | some c => pdbMulti pCOMPND (splitNl c))
+
+theorem pdbDumpOne_split (o : PdbObj α β) :
+    pdbDumpOne fa fb o = pdbHeader o ++ ((o.atoms.map (fun a => pATOM ++ [' ', ' '] ++ fa a)
+      ++ o.conects.map (fun b => pCONECT ++ fb b)) ++ [pEND]) := by
+  obtain ⟨t, c, a, b⟩ := o
+  cases c <;> simp [pdbDumpOne, pdbHeader]
+
+theorem pdbHeader_mem (o : PdbObj α β) (l : Line) (h : l ∈ pdbHeader o) :
+    (∃ r, l = pTITLE ++ r) ∨ (∃ r, l = pCOMPND ++ r) := by
+  obtain ⟨t, c, a, b⟩ := o
+  simp only [pdbHeader, List.mem_append] at h
+  cases h with
+  | inl h => exact Or.inl (mem_pdbMulti _ _ _ h)
+  | inr h =>
+    cases c with
+    | none => simp at h
+    | some c => exact Or.inr (mem_pdbMulti _ _ _ h)
+
+/-- a written frame cut inside its TITLE/COMPND records: no atom record of it is in the file -/
+theorem pdb_cut_header (o : PdbObj α β) (m : Nat) (hm : m ≤ (pdbHeader o).length) (ln : Int) :
+    ∃ ln', pdbLoadOne pa pb ⟨(pdbDumpOne fa fb o).take m, ln⟩ = .raise .loadError ⟨[], ln'⟩ := by
+  rw [pdbDumpOne_split, List.take_append_of_le_length hm]
+  apply pdbGo_no_atoms
+  intro l hl
+  rcases pdbHeader_mem o l (List.mem_of_mem_take hl) with ⟨r, rfl⟩ | ⟨r, rfl⟩ <;>
+    simp [startsWith, pTITLE, pCOMPND, pATOM, pHETATM, pCONECT, List.isPrefixOf]
+
+/-- a written frame cut after at least one ATOM record and before its END record: `load_one` returns what was
+    read with `endReached = false`, i.e. with the LoadWarning "The END is not found" -/
+theorem pdb_cut_partial (ha : ∀ a, pa (pATOM ++ [' ', ' '] ++ fa a) = some a)
+    (hb : ∀ b, pb (pCONECT ++ fb b) = some b) (o : PdbObj α β) (hat : o.atoms ≠ []) (m : Nat)
+    (hlo : (pdbHeader o).length < m) (hm : m < (pdbDumpOne fa fb o).length) (ln : Int) :
+    ∃ g ln', pdbLoadOne pa pb ⟨(pdbDumpOne fa fb o).take m, ln⟩ = .ok g ⟨[], ln'⟩ ∧ g.endReached = false := by
+  rw [pdbDumpOne_split] at hm ⊢
+  rw [← List.append_assoc] at hm ⊢
+  rw [List.take_append_of_le_length (by simp at hm ⊢; omega)]
+  have hgood : ∀ l ∈ (pdbHeader o ++ (o.atoms.map (fun a => pATOM ++ [' ', ' '] ++ fa a)
+      ++ o.conects.map (fun b => pCONECT ++ fb b))).take m,
+      startsWith pEND l = false ∧ (pdbIsAtom l = true → (pa l).isSome = true) ∧
+        (startsWith pCONECT l = true → (pb l).isSome = true) := by
+    intro l hl
+    have hl' := List.mem_of_mem_take hl
+    simp only [List.mem_append, List.mem_map] at hl'
+    rcases hl' with hh | ⟨a, _, rfl⟩ | ⟨b, _, rfl⟩
+    · rcases pdbHeader_mem o l hh with ⟨r, rfl⟩ | ⟨r, rfl⟩ <;>
+        simp [startsWith, pdbIsAtom, pTITLE, pCOMPND, pATOM, pHETATM, pCONECT, pEND, List.isPrefixOf]
+    · refine ⟨by simp [startsWith, pATOM, pEND, List.isPrefixOf], fun _ => by rw [ha]; rfl, fun h => ?_⟩
+      simp [startsWith, pATOM, pCONECT, List.isPrefixOf] at h
+    · refine ⟨by simp [startsWith, pCONECT, pEND, List.isPrefixOf], fun h => ?_, fun _ => by rw [hb]; rfl⟩
+      simp [startsWith, pdbIsAtom, pATOM, pHETATM, pCONECT, List.isPrefixOf] at h
+  have hany : ((pdbHeader o ++ (o.atoms.map (fun a => pATOM ++ [' ', ' '] ++ fa a)
+      ++ o.conects.map (fun b => pCONECT ++ fb b))).take m).any pdbIsAtom = true := by
+    obtain ⟨a0, as, hatoms⟩ : ∃ a0 as, o.atoms = a0 :: as := by
+      cases h : o.atoms with
+      | nil => exact absurd h hat
+      | cons a0 as => exact ⟨a0, as, rfl⟩
+    obtain ⟨k, rfl⟩ : ∃ k, m = (pdbHeader o).length + (k + 1) := ⟨m - (pdbHeader o).length - 1, by omega⟩
+    rw [List.any_eq_true]
+    refine ⟨pATOM ++ [' ', ' '] ++ fa a0, ?_, by simp [pdbIsAtom, startsWith, pATOM, List.isPrefixOf]⟩
+    rw [List.take_append, List.take_of_length_le (by omega), hatoms]
+    simp
+  have := (pdbGo_no_end pa pb _ hgood ln ⟨[], [], [], [], false⟩ false).1 (by rw [hany]; rfl)
+  exact this
+
 end pdb
 
+/-! ### mol2.load_one's section loop and mol2.load_many's scan -/
+
+section mol2
+variable {α β : Type} (bc : Bool) (pa : Line → Option α) (pb : Line → Option β)
+
+
+/-- a line that both `mol2.load_many`'s scan and `mol2.load_one`'s section loop pass over -/
+def inert (l : Line) : Bool :=
+  l.isEmpty || (match words l with | [] => false | w :: _ => w != tMOLECULE && w != tATOM && w != tBOND)
+
+def MolStart (tl : List Line) : Prop := tl = [] ∨ ∃ m t, tl = m :: t ∧ (words m).head? = some tMOLECULE
+
+theorem inert_not_mol (l : Line) (h : inert l = true) : (words l).head? ≠ some tMOLECULE := by
+  unfold inert at h
+  cases l with
+  | nil => simp [words, wordsAux]
+  | cons c t =>
+    cases hw : words (c :: t) with
+    | nil => simp
+    | cons w ws => rw [hw] at h; simp at h; simp [h.1]
+
+theorem mol2Go_inert (l : Line) (h : inert l = true) (fuel : Nat) (hdr : Option Mol2Hdr)
+    (res : Option (Mol2Frame α β)) (t : List Line) (ln : Int) :
+    mol2Go bc pa pb (fuel + 1) hdr res ⟨l :: t, ln⟩ = mol2Go bc pa pb fuel hdr res ⟨t, ln + 1⟩ := by
+  rw [mol2Go]
+  simp only [next_cons]
+  by_cases he : l.isEmpty
+  · simp [he]
+  · unfold inert at h
+    simp [he] at h
+    cases hw : words l with
+    | nil => simp [hw] at h
+    | cons w ws => simp [hw] at h; simp [hw, h, he]
+
+theorem mol2Go_inerts : ∀ (sk : List Line), (∀ l ∈ sk, inert l = true) → ∀ (fuel : Nat) (hdr : Option Mol2Hdr)
+    (res : Option (Mol2Frame α β)) (t : List Line) (ln : Int),
+    mol2Go bc pa pb (fuel + sk.length) hdr res ⟨sk ++ t, ln⟩ = mol2Go bc pa pb fuel hdr res ⟨t, ln + sk.length⟩
+  | [], _, fuel, hdr, res, t, ln => by simp
+  | l :: sk, h, fuel, hdr, res, t, ln => by
+    have := mol2Go_inerts sk (fun x hx => h x (by simp [hx])) fuel hdr res t (ln + 1)
+    simp only [List.length_cons, List.cons_append, ← Nat.add_assoc]
+    rw [mol2Go_inert bc pa pb l (h l (by simp)), this]
+    congr 2; push_cast; omega
+
+theorem words_tMOLECULE : words tMOLECULE = [tMOLECULE] := by decide
+theorem words_tATOM : words tATOM = [tATOM] := by decide
+theorem words_tBOND : words tBOND = [tBOND] := by decide
+
+theorem mol2Go_header (fuel : Nat) (hdr : Option Mol2Hdr) (tl cl a b : Line) (r : List Line) (na nb : Int)
+    (hw : words cl = a :: b :: r) (hna : pyInt a = some na) (hnb : pyInt b = some nb) (t : List Line) (ln : Int) :
+    mol2Go bc pa pb (fuel + 1) hdr (none : Option (Mol2Frame α β)) ⟨tMOLECULE :: tl :: cl :: t, ln⟩ =
+      mol2Go bc pa pb fuel (some ⟨strip tl, na, nb⟩) none ⟨t, ln + 1 + 1 + 1⟩ := by
+  rw [mol2Go]
+  have h0 : tMOLECULE.isEmpty = false := by decide
+  simp [words_tMOLECULE, h0, hw, hna, hnb]
+
+theorem mol2Go_atom (fa : α → Line) (ha : ∀ a, pa (fa a) = some a) (fuel : Nat) (h : Mol2Hdr)
+    (res : Option (Mol2Frame α β)) (as : List α) (hn : h.natoms = as.length) (t : List Line) (ln : Int) :
+    ∃ ln', mol2Go bc pa pb (fuel + 1) (some h) res ⟨tATOM :: (as.map fa ++ t), ln⟩ =
+      mol2Go bc pa pb fuel (some h) (some ⟨h.title, as, none⟩) ⟨t, ln'⟩ := by
+  obtain ⟨ln', hr⟩ := readN_map pa fa ha as t (ln + 1)
+  refine ⟨ln', ?_⟩
+  rw [mol2Go]
+  have h0 : tATOM.isEmpty = false := by decide
+  have h1 : tATOM ≠ tMOLECULE := by decide
+  have hneg : ¬ ((as.length : Int) < 0) := by omega
+  simp [words_tATOM, h0, h1, hneg, hn, hr]
+
+theorem mol2Go_bond (fb : β → Line) (hb : ∀ b, pb (fb b) = some b) (fuel : Nat) (h : Mol2Hdr)
+    (r : Mol2Frame α β) (bs : List β) (hn : h.nbonds = bs.length) (t : List Line) (ln : Int) :
+    ∃ ln', mol2Go bc pa pb (fuel + 1) (some h) (some r) ⟨tBOND :: (bs.map fb ++ t), ln⟩ =
+      mol2Go bc pa pb fuel (some h) (some { r with bonds := some bs }) ⟨t, ln'⟩ := by
+  obtain ⟨ln', hr⟩ := readN_map pb fb hb bs t (ln + 1)
+  refine ⟨ln', ?_⟩
+  rw [mol2Go]
+  have h0 : tBOND.isEmpty = false := by decide
+  have h1 : tBOND ≠ tMOLECULE := by decide
+  have h2 : tBOND ≠ tATOM := by decide
+  have hneg : ¬ ((bs.length : Int) < 0) := by omega
+  simp [words_tBOND, h0, h1, h2, hneg, hn, hr]
+
+theorem mol2Go_eof (fuel : Nat) (hdr : Option Mol2Hdr) (res : Option (Mol2Frame α β)) (ln : Int) :
+    mol2Go bc pa pb (fuel + 1) hdr res ⟨[], ln⟩ = mol2Finish bc hdr res ⟨[], ln + 1⟩ := by
+  rw [mol2Go]; simp
+
+theorem mol2Go_next_mol (fuel : Nat) (hdr : Option Mol2Hdr) (r : Mol2Frame α β) (m : Line) (t : List Line)
+    (hm : (words m).head? = some tMOLECULE) (ln : Int) :
+    mol2Go bc pa pb (fuel + 1) hdr (some r) ⟨m :: t, ln⟩ = mol2Finish bc hdr (some r) ⟨m :: t, ln + 1 - 1⟩ := by
+  rw [mol2Go]
+  have h0 : m.isEmpty = false := by
+    cases m with
+    | nil => simp [words, wordsAux] at hm
+    | cons _ _ => rfl
+  cases hw : words m with
+  | nil => simp [hw] at hm
+  | cons w ws =>
+    simp [hw] at hm
+    simp [h0, hw, hm]
+
+variable (fc : Nat → Nat → Line) (fa : α → Line) (fb : β → Line)
+
+/-- the seven comment lines `dump_one` prints before the MOLECULE record -/
+def mol2Pre : List Line := ["# Mol2 file created with Iodata".toList, [], [], [], [], [], []]
+
+/-- what follows the MOLECULE record line in a written frame -/
+def mol2Body (f : Mol2Frame α β) : List Line :=
+  splitNl (titleOr f.title) ++ [fc f.atoms.length (match f.bonds with | none => 0 | some b => b.length), tATOM]
+    ++ f.atoms.map fa ++ (match f.bonds with | none => [] | some b => tBOND :: b.map fb)
+
+theorem mol2DumpOne_eq (f : Mol2Frame α β) :
+    mol2DumpOne fc fa fb f = mol2Pre ++ tMOLECULE :: mol2Body fc fa fb f := by
+  obtain ⟨t, a, b⟩ := f
+  cases b <;> simp [mol2DumpOne, mol2Head, mol2Pre, mol2Body]
+
+theorem mol2Pre_inert : ∀ l ∈ mol2Pre, inert l = true := by decide
+
+/-- the counts line is printed so that its first two words parse back -/
+def Mol2CountsOk (fc : Nat → Nat → Line) : Prop :=
+  ∀ na nb, ∃ a b r, words (fc na nb) = a :: b :: r ∧ pyInt a = some (na : Int) ∧ pyInt b = some (nb : Int)
+
+theorem mol2Go_after (sk : List Line) (hsk : ∀ l ∈ sk, inert l = true) (tl : List Line) (htl : MolStart tl)
+    (fuel : Nat) (hf : fuel ≥ sk.length + 1) (hdr : Option Mol2Hdr) (r : Mol2Frame α β) (ln : Int) :
+    ∃ ln', mol2Go bc pa pb fuel hdr (some r) ⟨sk ++ tl, ln⟩ = mol2Finish bc hdr (some r) ⟨tl, ln'⟩ := by
+  obtain ⟨k, rfl⟩ : ∃ k, fuel = (k + 1) + sk.length := ⟨fuel - sk.length - 1, by omega⟩
+  rw [mol2Go_inerts bc pa pb sk hsk]
+  cases htl with
+  | inl h => subst h; exact ⟨_, mol2Go_eof bc pa pb k hdr _ _⟩
+  | inr h =>
+    obtain ⟨m, t, rfl, hm⟩ := h
+    exact ⟨_, mol2Go_next_mol bc pa pb k hdr r m t hm _⟩
+
+/-- **what `load_one` does on a written frame**: from its MOLECULE record it reads the frame, passes over the
+    comment lines that follow and stops at the end of the file or in front of the next MOLECULE record. -/
+theorem mol2Go_frame (hc : Mol2CountsOk fc) (ha : ∀ a, pa (fa a) = some a) (hb : ∀ b, pb (fb b) = some b)
+    (f : Mol2Frame α β) (hnl : '\n' ∉ f.title) (sk : List Line) (hsk : ∀ l ∈ sk, inert l = true)
+    (tl : List Line) (htl : MolStart tl) (fuel : Nat) (hf : fuel ≥ sk.length + 4) (hdr0 : Option Mol2Hdr) (ln : Int) :
+    ∃ ln', mol2Go true pa pb fuel hdr0 none ⟨tMOLECULE :: (mol2Body fc fa fb f ++ (sk ++ tl)), ln⟩ =
+      .ok (mol2Norm f) ⟨tl, ln'⟩ := by
+  obtain ⟨title, atoms, bonds⟩ := f
+  simp only at hnl
+  have hT : splitNl (titleOr title) = [titleOr title] := splitNl_no_nl _ (titleOr_no_nl _ hnl)
+  cases bonds with
+  | none =>
+    obtain ⟨a, b, r, hw, hna, hnb⟩ := hc atoms.length 0
+    obtain ⟨k, rfl⟩ : ∃ k, fuel = k + 1 + 1 := ⟨fuel - 2, by omega⟩
+    obtain ⟨ln1, h1⟩ := mol2Go_atom true pa pb fa ha k ⟨strip (titleOr title), atoms.length, (0 : Nat)⟩ none atoms rfl
+      (sk ++ tl) (ln + 1 + 1 + 1)
+    obtain ⟨ln2, h2⟩ := mol2Go_after true pa pb sk hsk tl htl k (by omega)
+      (some ⟨strip (titleOr title), atoms.length, (0 : Nat)⟩) ⟨strip (titleOr title), atoms, none⟩ ln1
+    refine ⟨ln2, ?_⟩
+    simp only [mol2Body, hT, List.cons_append, List.nil_append, List.append_nil, List.append_assoc]
+    rw [mol2Go_header true pa pb (k + 1) hdr0 _ _ a b r _ _ hw hna hnb, h1, h2]
+    simp [mol2Finish, mol2Norm]
+  | some bs =>
+    obtain ⟨a, b, r, hw, hna, hnb⟩ := hc atoms.length bs.length
+    obtain ⟨k, rfl⟩ : ∃ k, fuel = k + 1 + 1 + 1 := ⟨fuel - 3, by omega⟩
+    obtain ⟨ln1, h1⟩ := mol2Go_atom true pa pb fa ha (k + 1) ⟨strip (titleOr title), atoms.length, bs.length⟩ none atoms rfl
+      (tBOND :: (bs.map fb ++ (sk ++ tl))) (ln + 1 + 1 + 1)
+    obtain ⟨ln2, h2⟩ := mol2Go_bond true pa pb fb hb k ⟨strip (titleOr title), atoms.length, bs.length⟩
+      ⟨strip (titleOr title), atoms, none⟩ bs rfl (sk ++ tl) ln1
+    obtain ⟨ln3, h3⟩ := mol2Go_after true pa pb sk hsk tl htl k (by omega)
+      (some ⟨strip (titleOr title), atoms.length, bs.length⟩) ⟨strip (titleOr title), atoms, some bs⟩ ln2
+    refine ⟨ln3, ?_⟩
+    simp only [mol2Body, hT, List.cons_append, List.nil_append, List.append_assoc]
+    rw [mol2Go_header true pa pb (k + 1 + 1) hdr0 _ _ a b r _ _ hw hna hnb, h1, h2, h3]
+    simp [mol2Finish, mol2Norm]
+
+theorem mol2Body_length (f : Mol2Frame α β) (hnl : '\n' ∉ f.title) :
+    (mol2Body fc fa fb f).length =
+      3 + f.atoms.length + (match f.bonds with | none => 0 | some b => 1 + b.length) := by
+  have hT : splitNl (titleOr f.title) = [titleOr f.title] := splitNl_no_nl _ (titleOr_no_nl _ hnl)
+  cases hb : f.bonds <;> simp [mol2Body, hT, hb] <;> omega
+
+/-- **prefix-consumption law of MOL2**, in the form the format allows -/
+theorem mol2_loadOne_frame (hc : Mol2CountsOk fc) (ha : ∀ a, pa (fa a) = some a) (hb : ∀ b, pb (fb b) = some b)
+    (f : Mol2Frame α β) (hnl : '\n' ∉ f.title) (sk : List Line) (hsk : ∀ l ∈ sk, inert l = true)
+    (tl : List Line) (htl : MolStart tl) (ln : Int) :
+    ∃ ln', mol2LoadOne true pa pb ⟨tMOLECULE :: (mol2Body fc fa fb f ++ (sk ++ tl)), ln⟩ =
+      .ok (mol2Norm f) ⟨tl, ln'⟩ := by
+  unfold mol2LoadOne
+  apply mol2Go_frame pa pb fc fa fb hc ha hb f hnl sk hsk tl htl
+  simp [mol2Body_length fc fa fb f hnl]
+  omega
+theorem molStart_mol (t : List Line) : MolStart (tMOLECULE :: t) :=
+  Or.inr ⟨tMOLECULE, t, rfl, by rw [words_tMOLECULE]; rfl⟩
+
+theorem scanMolGo_skip (first : Bool) : ∀ (sk : List Line), (∀ l ∈ sk, inert l = true) →
+    ∀ (m : Line) (t : List Line) (ln : Int), (words m).head? = some tMOLECULE →
+      scanMolGo first (sk ++ m :: t) ln = .go ⟨m :: t, ln + sk.length⟩
+  | [], _, m, t, ln, hm => by simp [scanMolGo, hm]
+  | l :: sk, h, m, t, ln, hm => by
+    have hl := inert_not_mol l (h l (by simp))
+    have := scanMolGo_skip first sk (fun x hx => h x (by simp [hx])) m t (ln + 1) hm
+    simp only [List.cons_append, scanMolGo, hl, if_false, this, List.length_cons]
+    congr 2; push_cast; omega
+
+theorem scanMolGo_eof (first : Bool) : ∀ (sk : List Line), (∀ l ∈ sk, inert l = true) → ∀ (ln : Int),
+    scanMolGo first sk ln = if first then .eofErr ⟨[], ln + sk.length + 1⟩ else .eof
+  | [], _, ln => by simp [scanMolGo]
+  | l :: sk, h, ln => by
+    have hl := inert_not_mol l (h l (by simp))
+    have := scanMolGo_eof first sk (fun x hx => h x (by simp [hx])) (ln + 1)
+    simp only [scanMolGo, hl, if_false, this, List.length_cons]
+    cases first <;> simp
+    omega
+
+/-- **the induction for MOL2**: the pending lines are comment lines, a MOLECULE record with its frame, further
+    complete written frames, comment lines, and a tail that is empty or starts with a MOLECULE record.  The loop
+    yields the frames in order and continues on the tail. -/
+theorem mol2_runLoop_frames (hc : Mol2CountsOk fc) (ha : ∀ a, pa (fa a) = some a) (hb : ∀ b, pb (fb b) = some b)
+    (tsk tl : List Line) (htsk : ∀ l ∈ tsk, inert l = true) (htl : MolStart tl)
+    (P : List (Mol2Frame α β) × GenFinal → Prop)
+    (htail : ∀ fuel ln, fuel ≥ tl.length + 1 → P (runLoop mol2Skel (mol2LoadOne true pa pb) fuel false ⟨tl, ln⟩)) :
+    ∀ (fs : List (Mol2Frame α β)) (f : Mol2Frame α β) (sk : List Line) (fuel : Nat) (ln : Int) (first : Bool),
+      (∀ g ∈ f :: fs, '\n' ∉ g.title) → (∀ l ∈ sk, inert l = true) →
+      fuel ≥ (fs.flatMap (mol2DumpOne fc fa fb) ++ (tsk ++ tl)).length + 2 →
+      ∃ r, P r ∧ runLoop mol2Skel (mol2LoadOne true pa pb) fuel first
+          ⟨sk ++ tMOLECULE :: (mol2Body fc fa fb f ++ (fs.flatMap (mol2DumpOne fc fa fb) ++ (tsk ++ tl))), ln⟩ =
+        (mol2Norm f :: fs.map mol2Norm ++ r.1, r.2) := by
+  intro fs
+  induction fs with
+  | nil =>
+    intro f sk fuel ln first hnl hsk hf
+    obtain ⟨ln', hl⟩ := mol2_loadOne_frame pa pb fc fa fb hc ha hb f (hnl f (by simp)) tsk htsk tl htl (ln + sk.length)
+    cases fuel with
+    | zero => simp at hf
+    | succ fuel =>
+      refine ⟨_, htail fuel ln' (by simp at hf; omega), ?_⟩
+      have hp := scanMolGo_skip first sk hsk tMOLECULE (mol2Body fc fa fb f ++ (tsk ++ tl)) ln
+        (by rw [words_tMOLECULE]; rfl)
+      simp only [List.flatMap_nil, List.nil_append, runLoop, mol2Skel, runPeek, hp, hl, List.map_nil, List.cons_append]
+  | cons g gs ih =>
+    intro f sk fuel ln first hnl hsk hf
+    have hrest : (g :: gs).flatMap (mol2DumpOne fc fa fb) ++ (tsk ++ tl) =
+        mol2Pre ++ (tMOLECULE :: (mol2Body fc fa fb g ++ (gs.flatMap (mol2DumpOne fc fa fb) ++ (tsk ++ tl)))) := by
+      simp [mol2DumpOne_eq]
+    obtain ⟨ln', hl⟩ := mol2_loadOne_frame pa pb fc fa fb hc ha hb f (hnl f (by simp)) mol2Pre mol2Pre_inert
+      _ (molStart_mol (mol2Body fc fa fb g ++ (gs.flatMap (mol2DumpOne fc fa fb) ++ (tsk ++ tl)))) (ln + sk.length)
+    cases fuel with
+    | zero => simp at hf
+    | succ fuel =>
+      obtain ⟨r, hr, he⟩ := ih g [] fuel ln' false (fun x hx => hnl x (by simp at hx ⊢; right; exact hx))
+        (by simp) (by rw [hrest] at hf; simp at hf ⊢; omega)
+      refine ⟨r, hr, ?_⟩
+      have hp := scanMolGo_skip first sk hsk tMOLECULE
+        (mol2Body fc fa fb f ++ ((g :: gs).flatMap (mol2DumpOne fc fa fb) ++ (tsk ++ tl))) ln
+        (by rw [words_tMOLECULE]; rfl)
+      rw [hrest] at hp ⊢
+      simp only [List.nil_append, mol2Skel] at he
+      simp only [runLoop, mol2Skel, runPeek, hp, hl, he, List.map_cons, List.cons_append]
+theorem mol2Go_atom_short (ha : ∀ a, pa (fa a) = some a) (fuel' : Nat) (hf : 0 < fuel') (h : Mol2Hdr)
+    (res : Option (Mol2Frame α β)) (as : List α) (hn : (as.length : Int) < h.natoms) (ln : Int) :
+    ∃ ln', mol2Go bc pa pb fuel' (some h) res ⟨tATOM :: as.map fa, ln⟩ = .raise .stop ⟨[], ln'⟩ := by
+  obtain ⟨fuel, rfl⟩ : ∃ k, fuel' = k + 1 := ⟨fuel' - 1, by omega⟩
+  obtain ⟨ln', hr⟩ := readN_short pa fa ha as h.natoms.toNat (ln + 1) (by omega)
+  refine ⟨ln', ?_⟩
+  rw [mol2Go]
+  have h0 : tATOM.isEmpty = false := by decide
+  have h1 : tATOM ≠ tMOLECULE := by decide
+  have hneg : ¬ (h.natoms < 0) := by omega
+  simp [words_tATOM, h0, h1, hneg, hr]
+
+theorem mol2Go_bond_short (hb : ∀ b, pb (fb b) = some b) (fuel' : Nat) (hf : 0 < fuel') (h : Mol2Hdr)
+    (res : Option (Mol2Frame α β)) (bs : List β) (hn : (bs.length : Int) < h.nbonds) (ln : Int) :
+    ∃ ln', mol2Go bc pa pb fuel' (some h) res ⟨tBOND :: bs.map fb, ln⟩ = .raise .stop ⟨[], ln'⟩ := by
+  obtain ⟨fuel, rfl⟩ : ∃ k, fuel' = k + 1 := ⟨fuel' - 1, by omega⟩
+  obtain ⟨ln', hr⟩ := readN_short pb fb hb bs h.nbonds.toNat (ln + 1) (by omega)
+  refine ⟨ln', ?_⟩
+  rw [mol2Go]
+  have h0 : tBOND.isEmpty = false := by decide
+  have h1 : tBOND ≠ tMOLECULE := by decide
+  have h2 : tBOND ≠ tATOM := by decide
+  have hneg : ¬ (h.nbonds < 0) := by omega
+  simp [words_tBOND, h0, h1, h2, hneg, hr]
+
+theorem mol2Go_header' (fuel : Nat) (hf : 0 < fuel) (hdr : Option Mol2Hdr) (tl cl a b : Line) (r : List Line)
+    (na nb : Int) (hw : words cl = a :: b :: r) (hna : pyInt a = some na) (hnb : pyInt b = some nb) (t : List Line)
+    (ln : Int) :
+    mol2Go bc pa pb fuel hdr (none : Option (Mol2Frame α β)) ⟨tMOLECULE :: tl :: cl :: t, ln⟩ =
+      mol2Go bc pa pb (fuel - 1) (some ⟨strip tl, na, nb⟩) none ⟨t, ln + 1 + 1 + 1⟩ := by
+  obtain ⟨k, rfl⟩ : ∃ k, fuel = k + 1 := ⟨fuel - 1, by omega⟩
+  exact mol2Go_header bc pa pb k hdr tl cl a b r na nb hw hna hnb t ln
+
+theorem mol2Go_atom' (ha : ∀ a, pa (fa a) = some a) (fuel : Nat) (hf : 0 < fuel) (h : Mol2Hdr)
+    (res : Option (Mol2Frame α β)) (as : List α) (hn : h.natoms = as.length) (t : List Line) (ln : Int) :
+    ∃ ln', mol2Go bc pa pb fuel (some h) res ⟨tATOM :: (as.map fa ++ t), ln⟩ =
+      mol2Go bc pa pb (fuel - 1) (some h) (some ⟨h.title, as, none⟩) ⟨t, ln'⟩ := by
+  obtain ⟨k, rfl⟩ : ∃ k, fuel = k + 1 := ⟨fuel - 1, by omega⟩
+  exact mol2Go_atom bc pa pb fa ha k h res as hn t ln
+
+theorem mol2Go_eof' (fuel : Nat) (hf : 0 < fuel) (hdr : Option Mol2Hdr) (res : Option (Mol2Frame α β)) (ln : Int) :
+    mol2Go bc pa pb fuel hdr res ⟨[], ln⟩ = mol2Finish bc hdr res ⟨[], ln + 1⟩ := by
+  obtain ⟨k, rfl⟩ : ∃ k, fuel = k + 1 := ⟨fuel - 1, by omega⟩
+  exact mol2Go_eof bc pa pb k hdr res ln
+
+/-- the lines after the MOLECULE record of a written frame, with the count and the bond section as parameters -/
+theorem mol2Body_eq (f : Mol2Frame α β) (hnl : '\n' ∉ f.title) :
+    mol2Body fc fa fb f = titleOr f.title ::
+      fc f.atoms.length (match f.bonds with | none => 0 | some b => b.length) :: tATOM ::
+      (f.atoms.map fa ++ (match f.bonds with | none => [] | some b => tBOND :: b.map fb)) := by
+  have hT : splitNl (titleOr f.title) = [titleOr f.title] := splitNl_no_nl _ (titleOr_no_nl _ hnl)
+  obtain ⟨t, a, b⟩ := f
+  cases b <;> simp_all [mol2Body]
+
+/-- cut inside the header or the atom records -/
+theorem mol2_cut_head (ha : ∀ a, pa (fa a) = some a) (T C : Line) (ca cb : Line) (r : List Line) (nb : Int)
+    (atoms : List α) (hw : words C = ca :: cb :: r) (hna : pyInt ca = some (atoms.length : Int))
+    (hnb : pyInt cb = some nb) (bsec : List Line) (k : Nat) (hk : k < 3 + atoms.length) (ln : Int) :
+    ∃ e s, mol2LoadOne true pa pb ⟨tMOLECULE :: (T :: C :: tATOM :: (atoms.map fa ++ bsec)).take k, ln⟩ =
+      (.raise e s : Res (Mol2Frame α β)) := by
+  have h0 : tMOLECULE.isEmpty = false := by decide
+  unfold mol2LoadOne
+  rcases k with _ | _ | _ | k
+  · exact ⟨.stop, ⟨[], ln + 1 + 1⟩, by simp [mol2Go, words_tMOLECULE, h0]⟩
+  · exact ⟨.stop, ⟨[], ln + 1 + 1 + 1⟩, by simp [mol2Go, words_tMOLECULE, h0]⟩
+  · refine ⟨.loadError, ⟨[], ln + 1 + 1 + 1 + 1⟩, ?_⟩
+    simp only [List.take_succ_cons, List.take_zero, List.length_cons, List.length_nil]
+    rw [mol2Go_header' true pa pb _ (by omega) none _ _ ca cb r _ _ hw hna hnb, mol2Go_eof' true pa pb _ (by omega)]
+    simp [mol2Finish]
+  · have h1 : (atoms.map fa ++ bsec).take k = (atoms.take k).map fa := by
+      rw [List.take_append, List.map_take]
+      have : k - (atoms.map fa).length = 0 := by simp; omega
+      rw [this]; simp
+    simp only [List.take_succ_cons, h1, List.length_cons, List.length_map]
+    rw [mol2Go_header' true pa pb _ (by omega) none _ _ ca cb r _ _ hw hna hnb]
+    obtain ⟨ln', h3⟩ := mol2Go_atom_short true pa pb fa ha ((atoms.take k).length + 1 + 1 + 1 + 1 + 1 - 1) (by omega)
+      ⟨strip T, atoms.length, nb⟩ none (atoms.take k) (by simp; omega) (ln + 1 + 1 + 1)
+    exact ⟨_, _, h3⟩
+
+/-- cut in front of the bond section's header line or inside the bond records -/
+theorem mol2_cut_bonds (ha : ∀ a, pa (fa a) = some a) (hb : ∀ b, pb (fb b) = some b) (T C : Line) (ca cb : Line)
+    (r : List Line) (atoms : List α) (bs : List β) (hw : words C = ca :: cb :: r)
+    (hna : pyInt ca = some (atoms.length : Int)) (hnb : pyInt cb = some (bs.length : Int)) (i : Nat)
+    (hi : i ≤ bs.length) (hne : i = 0 → bs ≠ []) (ln : Int) :
+    ∃ e s, mol2LoadOne true pa pb
+        ⟨tMOLECULE :: (T :: C :: tATOM :: (atoms.map fa ++ tBOND :: bs.map fb)).take (3 + atoms.length + i), ln⟩ =
+      (.raise e s : Res (Mol2Frame α β)) := by
+  unfold mol2LoadOne
+  have h1 : (T :: C :: tATOM :: (atoms.map fa ++ tBOND :: bs.map fb)).take (3 + atoms.length + i) =
+      T :: C :: tATOM :: (atoms.map fa ++ (tBOND :: bs.map fb).take i) := by
+    rw [show 3 + atoms.length + i = (atoms.length + i) + 1 + 1 + 1 by omega]
+    simp only [List.take_succ_cons]
+    rw [List.take_append, List.take_of_length_le (by simp)]
+    simp
+  rw [h1]
+  generalize hfu : (Lit.mk (tMOLECULE :: T :: C :: tATOM :: (atoms.map fa ++ (tBOND :: bs.map fb).take i)) ln).pending.length
+    + 1 = L
+  have hL : L ≥ 5 := by simp at hfu; omega
+  rw [mol2Go_header' true pa pb _ (by omega) none _ _ ca cb r _ _ hw hna hnb]
+  obtain ⟨ln1, h3⟩ := mol2Go_atom' true pa pb fa ha (L - 1) (by omega) ⟨strip T, atoms.length, bs.length⟩
+    none atoms rfl ((tBOND :: bs.map fb).take i) (ln + 1 + 1 + 1)
+  rw [h3]
+  rcases i with _ | j
+  · refine ⟨.loadError, ⟨[], ln1 + 1⟩, ?_⟩
+    have hpos : 0 < bs.length := by
+      cases bs with
+      | nil => exact absurd rfl (hne rfl)
+      | cons _ _ => simp
+    rw [List.take_zero, mol2Go_eof' true pa pb _ (by omega)]
+    simp [mol2Finish, hpos]
+  · rw [List.take_succ_cons, ← List.map_take]
+    obtain ⟨ln', h4⟩ := mol2Go_bond_short true pa pb fb hb (L - 1 - 1) (by omega) ⟨strip T, atoms.length, bs.length⟩
+      (some ⟨strip T, atoms, none⟩) (bs.take j) (by simp; omega) ln1
+    exact ⟨_, _, h4⟩
+
+/-- a proper prefix of a written frame (cut after the MOLECULE record line and `k` further lines) makes `load_one`
+    raise — except the one cut that only removes the header line of an EMPTY bond section, which leaves a complete
+    written frame without bond section (`mol2Body_cut_empty_bonds`). -/
+theorem mol2_cut_raises (hc : Mol2CountsOk fc) (ha : ∀ a, pa (fa a) = some a) (hb : ∀ b, pb (fb b) = some b)
+    (f : Mol2Frame α β) (hnl : '\n' ∉ f.title) (k : Nat) (hk : k < (mol2Body fc fa fb f).length)
+    (hex : ¬ (f.bonds = some [] ∧ k + 1 = (mol2Body fc fa fb f).length)) (ln : Int) :
+    ∃ e s, mol2LoadOne true pa pb ⟨tMOLECULE :: (mol2Body fc fa fb f).take k, ln⟩ = .raise e s := by
+  rw [mol2Body_length fc fa fb f hnl] at hk hex
+  rw [mol2Body_eq fc fa fb f hnl]
+  obtain ⟨title, atoms, bonds⟩ := f
+  cases bonds with
+  | none =>
+    obtain ⟨a, b, r, hw, hna, hnb⟩ := hc atoms.length 0
+    exact mol2_cut_head pa pb fa ha _ _ a b r _ atoms hw hna hnb [] k (by simpa using hk) ln
+  | some bs =>
+    obtain ⟨a, b, r, hw, hna, hnb⟩ := hc atoms.length bs.length
+    by_cases hka : k < 3 + atoms.length
+    · exact mol2_cut_head pa pb fa ha _ _ a b r _ atoms hw hna hnb _ k hka ln
+    · obtain ⟨i, rfl⟩ : ∃ i, k = 3 + atoms.length + i := ⟨k - (3 + atoms.length), by omega⟩
+      simp only at hk hex
+      exact mol2_cut_bonds pa pb fa fb ha hb _ _ a b r atoms bs hw hna hnb i (by omega)
+        (fun h0 e => hex ⟨by rw [e], by subst h0 e; simp⟩) ln
+
+/-- the exceptional cut: removing only the header line of an empty bond section gives the written form of the same
+    frame without bond section — a complete file, not a truncated one -/
+theorem mol2Body_cut_empty_bonds (f : Mol2Frame α β) (h : f.bonds = some []) :
+    (mol2Body fc fa fb f).take ((mol2Body fc fa fb f).length - 1) = mol2Body fc fa fb { f with bonds := none } := by
+  obtain ⟨title, atoms, bonds⟩ := f
+  simp only at h
+  subst h
+  simp only [mol2Body, List.map_nil, List.append_nil]
+  rw [List.take_append, List.take_of_length_le (by simp)]
+  simp
+
+/-- comment lines in front of the tail do not matter to the loop -/
+theorem mol2_runLoop_skip (tsk tl : List Line) (htsk : ∀ l ∈ tsk, inert l = true) (htl : MolStart tl)
+    (fuel : Nat) (hf : 0 < fuel) (first : Bool) (ln : Int) :
+    runLoop mol2Skel (mol2LoadOne true pa pb) fuel first ⟨tsk ++ tl, ln⟩ =
+      runLoop mol2Skel (mol2LoadOne true pa pb) fuel first ⟨tl, ln + tsk.length⟩ := by
+  obtain ⟨k, rfl⟩ : ∃ k, fuel = k + 1 := ⟨fuel - 1, by omega⟩
+  cases htl with
+  | inl h =>
+    subst h
+    have h1 := scanMolGo_eof first tsk htsk ln
+    simp only [runLoop, mol2Skel, runPeek, List.append_nil, h1]
+    cases first <;> simp [scanMolGo]
+  | inr h =>
+    obtain ⟨m, t, rfl, hm⟩ := h
+    have h1 := scanMolGo_skip first tsk htsk m t ln hm
+    simp only [runLoop, mol2Skel, runPeek, h1]
+    simp [scanMolGo, hm]
+
+/-- **MOL2, any number of written frames followed by a tail**: the frames are yielded in order and the loop
+    continues on the tail (which is empty or starts with a MOLECULE record), in front of which comment lines are
+    passed over — by the last frame's `load_one` or, without any frame, by the scan of `load_many`. -/
+theorem mol2_runLoop_file (hc : Mol2CountsOk fc) (ha : ∀ a, pa (fa a) = some a) (hb : ∀ b, pb (fb b) = some b)
+    (tsk tl : List Line) (htsk : ∀ l ∈ tsk, inert l = true) (htl : MolStart tl)
+    (P : List (Mol2Frame α β) × GenFinal → Prop) (fs : List (Mol2Frame α β)) (first : Bool)
+    (htail : ∀ fuel ln, fuel ≥ tl.length + 1 →
+      P (runLoop mol2Skel (mol2LoadOne true pa pb) fuel (first && fs.isEmpty) ⟨tl, ln⟩))
+    (hnl : ∀ g ∈ fs, '\n' ∉ g.title) (fuel : Nat)
+    (hf : fuel ≥ (fs.flatMap (mol2DumpOne fc fa fb) ++ (tsk ++ tl)).length + 1) (ln : Int) :
+    ∃ r, P r ∧ runLoop mol2Skel (mol2LoadOne true pa pb) fuel first
+        ⟨fs.flatMap (mol2DumpOne fc fa fb) ++ (tsk ++ tl), ln⟩ = (fs.map mol2Norm ++ r.1, r.2) := by
+  cases fs with
+  | nil =>
+    refine ⟨_, htail fuel (ln + tsk.length) (by simp at hf; omega), ?_⟩
+    simp only [List.flatMap_nil, List.nil_append, List.map_nil, List.isEmpty_nil, Bool.and_true]
+    exact mol2_runLoop_skip pa pb tsk tl htsk htl fuel (by omega) first ln
+  | cons f fs =>
+    have hrest : (f :: fs).flatMap (mol2DumpOne fc fa fb) ++ (tsk ++ tl) =
+        mol2Pre ++ (tMOLECULE :: (mol2Body fc fa fb f ++ (fs.flatMap (mol2DumpOne fc fa fb) ++ (tsk ++ tl)))) := by
+      simp [mol2DumpOne_eq]
+    rw [hrest] at hf ⊢
+    simp only [List.isEmpty_cons, Bool.and_false] at htail
+    exact mol2_runLoop_frames pa pb fc fa fb hc ha hb tsk tl htsk htl P htail fs f mol2Pre fuel ln first hnl
+      mol2Pre_inert (by simp at hf ⊢; omega)
+end mol2
+
+/-! ### generic consequences of the block lemma for the loops `except StopIteration: raise LoadError` -/
+
+section generic
+variable {F G : Type} (pk : PeekKind) (loadOne : M F) (dump : G → List Line) (norm : G → F) (D : G → Prop)
+
+theorem loadMany_blocks_then_end (hne : ∀ g, dump g ≠ [])
+    (hstep : ∀ g, D g → ∀ rest ln first, ∃ s' ln',
+      runPeek pk first ⟨dump g ++ rest, ln⟩ = .go s' ∧ loadOne s' = .ok (norm g) ⟨rest, ln'⟩)
+    (gs : List G) (hgs : gs ≠ []) (hD : ∀ g ∈ gs, D g) (trail : List Line)
+    (hend : ∀ ln, runPeek pk false ⟨trail, ln⟩ = .eof) :
+    loadMany ⟨pk, [([.stop], .toLoadError)]⟩ loadOne (gs.flatMap dump ++ trail) = ⟨gs.map norm, .done⟩ := by
+  have htail : ∀ fuel ln, fuel ≥ trail.length + 1 →
+      runLoop ⟨pk, [([.stop], .toLoadError)]⟩ loadOne fuel false ⟨trail, ln⟩ = (([] : List F), GenFinal.ret) := by
+    intro fuel ln hf
+    cases fuel with
+    | zero => simp at hf
+    | succ fuel => simp [runLoop, hend ln]
+  obtain ⟨r, hr, he⟩ := runLoop_blocks ⟨pk, [([.stop], .toLoadError)]⟩ loadOne dump norm D hne hstep
+    trail (fun r => r = (([] : List F), GenFinal.ret)) htail gs _ 0 true hD (Or.inl hgs) (Nat.le_refl _)
+  subst hr
+  simpa [apiFinal] using loadMany_of_runLoop _ _ _ _ _ he
+
+theorem loadMany_blocks_then_bad (hne : ∀ g, dump g ≠ [])
+    (hstep : ∀ g, D g → ∀ rest ln first, ∃ s' ln',
+      runPeek pk first ⟨dump g ++ rest, ln⟩ = .go s' ∧ loadOne s' = .ok (norm g) ⟨rest, ln'⟩)
+    (gs : List G) (hD : ∀ g ∈ gs, D g) (bad : List Line)
+    (hpeek : ∀ ln first, runPeek pk first ⟨bad, ln⟩ = .go ⟨bad, ln⟩)
+    (hbad : ∀ ln, ∃ e s, loadOne ⟨bad, ln⟩ = .raise e s) :
+    ∃ ln, loadMany ⟨pk, [([.stop], .toLoadError)]⟩ loadOne (gs.flatMap dump ++ bad) =
+      ⟨gs.map norm, .loadError ln⟩ := by
+  have htail : ∀ fuel ln first, fuel ≥ bad.length + 1 →
+      EndsRaised (runLoop ⟨pk, [([.stop], .toLoadError)]⟩ loadOne fuel first ⟨bad, ln⟩) := by
+    intro fuel ln first hfu
+    obtain ⟨e, s, hst⟩ := hbad ln
+    cases fuel with
+    | zero => simp at hfu
+    | succ fuel =>
+      obtain ⟨e', he'⟩ := runLoop_raise pk loadOne fuel first _ _ _ _ (hpeek ln first) hst
+      exact endsRaised_of he'
+  obtain ⟨r, ⟨hr1, e, s, hr2⟩, he⟩ := runLoop_blocks_any ⟨pk, [([.stop], .toLoadError)]⟩ loadOne dump norm D hne hstep
+    bad EndsRaised htail gs _ 0 true hD (Nat.le_refl _)
+  refine ⟨s.lineno, ?_⟩
+  have := loadMany_of_runLoop _ _ _ _ _ he
+  simpa [hr1, hr2, apiFinal] using this
+end generic
+
+/-- `readN` on the complete block, then a short next block -/
+theorem readN_take_short {α : Type} (pa : Line → Option α) (fa : α → Line) (h : ∀ a, pa (fa a) = some a)
+    (as : List α) (k : Nat) (hk : k < as.length) (ln : Int) :
+    ∃ ln', readN pa as.length ⟨(as.map fa).take k, ln⟩ = (.raise .stop ⟨[], ln'⟩ : Res (List α)) := by
+  rw [← List.map_take]
+  exact readN_short pa fa h (as.take k) as.length ln (by simp; omega)
+
+/-! ### SDF: every cut -/
+section sdf
+variable {α β : Type} (fc : Nat → Nat → Line) (pa : Line → Option α) (fa : α → Line)
+  (pb : Line → Option β) (fb : β → Line)
+
+/-- the counts line is printed so that the reader's column cuts recover both numbers and the V2000 tag -/
+def SdfCountsOk (fc : Nat → Nat → Line) : Prop :=
+  ∀ na nb, pyInt ((fc na nb).take 3) = some (na : Int) ∧ pyInt (((fc na nb).drop 3).take 3) = some (nb : Int) ∧
+    lastWordUpper (fc na nb) = some ['V', '2', '0', '0', '0'] ∧ isBlank (fc na nb) = false
+
+/-- a written SDF record cut after `m` lines, `0 < m < all`: `load_one` raises (StopIteration inside the header,
+    the atom or the bond block; LoadError when `$$$$` is missing) -/
+theorem sdf_cut_raises (hc : SdfCountsOk fc) (ha : ∀ a, pa (fa a) = some a) (hb : ∀ b, pb (fb b) = some b)
+    (f : SdfFrame α β) (hnl : '\n' ∉ f.title) (m : Nat) (hm0 : 0 < m) (hm : m < (sdfDumpOne fc fa fb f).length)
+    (ln : Int) : ∃ e s, sdfLoadOne pa pb ⟨(sdfDumpOne fc fa fb f).take m, ln⟩ = .raise e s := by
+  obtain ⟨title, atoms, bonds⟩ := f
+  simp only at hnl
+  obtain ⟨h1, h2, h3, _⟩ := hc atoms.length bonds.length
+  have hT : splitNl (titleOr title) = [titleOr title] := splitNl_no_nl _ (titleOr_no_nl _ hnl)
+  have hshape : sdfDumpOne fc fa fb ⟨title, atoms, bonds⟩ = titleOr title :: [] :: [] :: fc atoms.length bonds.length ::
+      (atoms.map fa ++ (bonds.map fb ++ [['M', ' ', ' ', 'E', 'N', 'D'], sdfEnd])) := by
+    simp [sdfDumpOne, hT]
+  rw [hshape] at hm ⊢
+  have hneg1 : ¬ ((atoms.length : Int) < 0) := by omega
+  have hneg2 : ¬ ((bonds.length : Int) < 0) := by omega
+  have hme : (['M', ' ', ' ', 'E', 'N', 'D'] : Line) ≠ sdfEnd := by decide
+  rcases m with _ | _ | _ | _ | k
+  · omega
+  · exact ⟨.stop, ⟨[], ln + 1 + 1⟩, by simp [sdfLoadOne]⟩
+  · exact ⟨.stop, ⟨[], ln + 1 + 1 + 1⟩, by simp [sdfLoadOne]⟩
+  · exact ⟨.stop, ⟨[], ln + 1 + 1 + 1 + 1⟩, by simp [sdfLoadOne]⟩
+  · simp only [List.take_succ_cons]
+    simp only [List.length_cons, List.length_append, List.length_map, List.length_nil] at hm
+    by_cases hka : k < atoms.length
+    · -- inside the atom block
+      have ht : (atoms.map fa ++ (bonds.map fb ++ [['M', ' ', ' ', 'E', 'N', 'D'], sdfEnd])).take k =
+          (atoms.map fa).take k := List.take_append_of_le_length (by simp; omega)
+      obtain ⟨ln', hr⟩ := readN_take_short pa fa ha atoms k hka (ln + 1 + 1 + 1 + 1)
+      exact ⟨.stop, ⟨[], ln'⟩, by simp [sdfLoadOne, h1, h2, h3, hneg1, ht, hr]⟩
+    · have ht : (atoms.map fa ++ (bonds.map fb ++ [['M', ' ', ' ', 'E', 'N', 'D'], sdfEnd])).take k =
+          atoms.map fa ++ (bonds.map fb ++ [['M', ' ', ' ', 'E', 'N', 'D'], sdfEnd]).take (k - atoms.length) := by
+        rw [List.take_append, List.take_of_length_le (by simp; omega)]; simp
+      obtain ⟨i, hi⟩ : ∃ i, k = atoms.length + i := ⟨k - atoms.length, by omega⟩
+      subst hi
+      rw [ht, show atoms.length + i - atoms.length = i by omega]
+      by_cases hib : i < bonds.length
+      · have ht2 : (bonds.map fb ++ [['M', ' ', ' ', 'E', 'N', 'D'], sdfEnd]).take i = (bonds.map fb).take i :=
+          List.take_append_of_le_length (by simp; omega)
+        obtain ⟨ln1, hr1⟩ := readN_map pa fa ha atoms ((bonds.map fb).take i) (ln + 1 + 1 + 1 + 1)
+        obtain ⟨ln2, hr2⟩ := readN_take_short pb fb hb bonds i hib ln1
+        exact ⟨.stop, ⟨[], ln2⟩, by simp [sdfLoadOne, h1, h2, h3, hneg1, hneg2, ht2, hr1, hr2]⟩
+      · obtain ⟨j, hj⟩ : ∃ j, i = bonds.length + j := ⟨i - bonds.length, by omega⟩
+        subst hj
+        have ht2 : (bonds.map fb ++ [['M', ' ', ' ', 'E', 'N', 'D'], sdfEnd]).take (bonds.length + j) =
+            bonds.map fb ++ ([['M', ' ', ' ', 'E', 'N', 'D'], sdfEnd] : List Line).take j := by
+          rw [List.take_append, List.take_of_length_le (by simp)]; simp
+        have hj2 : j < 2 := by omega
+        rcases j with _ | _ | j
+        · obtain ⟨ln1, hr1⟩ := readN_map pa fa ha atoms (bonds.map fb ++ []) (ln + 1 + 1 + 1 + 1)
+          obtain ⟨ln2, hr2⟩ := readN_map pb fb hb bonds [] ln1
+          simp only [List.append_nil] at hr1 hr2
+          exact ⟨.loadError, ⟨[], ln2 + 1⟩, by
+            simp [sdfLoadOne, h1, h2, h3, hneg1, hneg2, ht2, hr1, hr2, sdfFindEndM, sdfFindEnd]⟩
+        · obtain ⟨ln1, hr1⟩ := readN_map pa fa ha atoms (bonds.map fb ++ [['M', ' ', ' ', 'E', 'N', 'D']])
+            (ln + 1 + 1 + 1 + 1)
+          obtain ⟨ln2, hr2⟩ := readN_map pb fb hb bonds [['M', ' ', ' ', 'E', 'N', 'D']] ln1
+          exact ⟨.loadError, ⟨[], ln2 + 1 + 1⟩, by
+            simp [sdfLoadOne, h1, h2, h3, hneg1, hneg2, ht2, hr1, hr2, sdfFindEndM, sdfFindEnd, hme]⟩
+        · omega
+end sdf
+/-! ### GRO and extended XYZ: an independent renderer of well-formed frames (the library has no writer) -/
+
+section gro
+variable {α : Type} (showNat : Nat → Line) (pt : Line → Bool) (pa : Line → Option α) (pc : Line → Bool)
+  (fa : α → Line) (box : Line)
+
+/-- what a load gives: the title is cut at the first comma when it carries a time stamp `t=` -/
+def groNorm (f : XyzFrame α) : XyzFrame α := { f with title := groTitle f.title }
+
+theorem gro_render_ne (f : XyzFrame α) : groRender showNat fa box f ≠ [] := by simp [groRender]
+
+theorem gro_loadOne_render (hs : ∀ n, pyInt (showNat n) = some (n : Int)) (ha : ∀ a, pa (fa a) = some a)
+    (hbox : pc box = true) (f : XyzFrame α) (hpt : pt f.title = true) (rest : List Line) (ln : Int) :
+    ∃ ln', groLoadOne pt pa pc ⟨groRender showNat fa box f ++ rest, ln⟩ = .ok (groNorm f) ⟨rest, ln'⟩ := by
+  obtain ⟨ln', hr⟩ := readN_map pa fa ha f.atoms (box :: rest) (ln + 1 + 1)
+  have hneg : ¬ ((f.atoms.length : Int) < 0) := by omega
+  exact ⟨ln' + 1, by simp [groRender, groLoadOne, hpt, hs, hneg, hr, hbox, groNorm]⟩
+
+theorem gro_step (hs : ∀ n, pyInt (showNat n) = some (n : Int)) (hb : ∀ n, isBlank (showNat n) = false)
+    (ha : ∀ a, pa (fa a) = some a) (hbox : pc box = true) (f : XyzFrame α) (hpt : pt f.title = true)
+    (rest : List Line) (ln : Int) (first : Bool) :
+    ∃ s' ln', runPeek .peekPushAll first ⟨groRender showNat fa box f ++ rest, ln⟩ = .go s' ∧
+      groLoadOne pt pa pc s' = .ok (groNorm f) ⟨rest, ln'⟩ := by
+  obtain ⟨ln', hl⟩ := gro_loadOne_render showNat pt pa pc fa box hs ha hbox f hpt rest ln
+  refine ⟨_, ln', peekPushAll_go _ first ⟨showNat f.atoms.length, ?_, hb _⟩, hl⟩
+  simp [groRender]
+
+/-- a rendered GRO frame cut after `m` lines, `0 < m < all`: StopIteration in `load_one` -/
+theorem gro_cut_stops (hs : ∀ n, pyInt (showNat n) = some (n : Int)) (ha : ∀ a, pa (fa a) = some a)
+    (f : XyzFrame α) (hpt : pt f.title = true) (m : Nat) (hm0 : 0 < m)
+    (hm : m < (groRender showNat fa box f).length) (ln : Int) :
+    ∃ s, groLoadOne pt pa pc ⟨(groRender showNat fa box f).take m, ln⟩ = .raise .stop s := by
+  have hneg : ¬ ((f.atoms.length : Int) < 0) := by omega
+  simp only [groRender, List.length_cons, List.length_append, List.length_map, List.length_nil] at hm
+  rcases m with _ | _ | k
+  · omega
+  · exact ⟨⟨[], ln + 1 + 1⟩, by simp [groRender, groLoadOne, hpt]⟩
+  · simp only [groRender, List.take_succ_cons]
+    by_cases hk : k < f.atoms.length
+    · have ht : (f.atoms.map fa ++ [box]).take k = (f.atoms.map fa).take k :=
+        List.take_append_of_le_length (by simp; omega)
+      obtain ⟨ln', hr⟩ := readN_take_short pa fa ha f.atoms k hk (ln + 1 + 1)
+      exact ⟨⟨[], ln'⟩, by simp [groLoadOne, hpt, hs, hneg, ht, hr]⟩
+    · have hk' : k = f.atoms.length := by omega
+      have ht : (f.atoms.map fa ++ [box]).take k = f.atoms.map fa := by
+        rw [List.take_append, List.take_of_length_le (by simp; omega), hk']; simp
+      obtain ⟨ln', hr⟩ := readN_map pa fa ha f.atoms [] (ln + 1 + 1)
+      simp only [List.append_nil] at hr
+      exact ⟨⟨[], ln' + 1⟩, by simp [groLoadOne, hpt, hs, hneg, ht, hr]⟩
+end gro
+
+section ext
+variable {α : Type} (showNat : Nat → Line) (pt : Line → Bool) (pa : Line → Option α) (fa : α → Line)
+
+/-- an extended-XYZ frame: count, title line (`key=value` pairs, `Properties=...`), atom lines -/
+def extRender (f : XyzFrame α) : List Line := showNat f.atoms.length :: f.title :: f.atoms.map fa
+
+def extNorm (f : XyzFrame α) : XyzFrame α := { f with title := strip f.title }
+
+theorem ext_render_ne (f : XyzFrame α) : extRender showNat fa f ≠ [] := by simp [extRender]
+
+theorem ext_loadOne_render (hs : ∀ n, pyInt (showNat n) = some (n : Int)) (ha : ∀ a, pa (fa a) = some a)
+    (f : XyzFrame α) (hpt : pt f.title = true) (rest : List Line) (ln : Int) :
+    ∃ ln', extLoadOne pt pa ⟨extRender showNat fa f ++ rest, ln⟩ = .ok (extNorm f) ⟨rest, ln'⟩ := by
+  obtain ⟨ln', hr⟩ := readN_map pa fa ha f.atoms rest (ln + 1 + 1)
+  have hneg : ¬ ((f.atoms.length : Int) < 0) := by omega
+  exact ⟨ln', by simp [extRender, extLoadOne, xyzLoadOne, hpt, hs, hneg, hr, extNorm]⟩
+
+theorem ext_step (hs : ∀ n, pyInt (showNat n) = some (n : Int)) (hb : ∀ n, isBlank (showNat n) = false)
+    (ha : ∀ a, pa (fa a) = some a) (f : XyzFrame α) (hpt : pt f.title = true)
+    (rest : List Line) (ln : Int) (first : Bool) :
+    ∃ s' ln', runPeek .skipBlank first ⟨extRender showNat fa f ++ rest, ln⟩ = .go s' ∧
+      extLoadOne pt pa s' = .ok (extNorm f) ⟨rest, ln'⟩ := by
+  obtain ⟨ln', hl⟩ := ext_loadOne_render showNat pt pa fa hs ha f hpt rest ln
+  exact ⟨_, ln', skipBlank_go _ _ _ _ (hb _), hl⟩
+
+theorem ext_cut_stops (hs : ∀ n, pyInt (showNat n) = some (n : Int)) (ha : ∀ a, pa (fa a) = some a)
+    (f : XyzFrame α) (hpt : pt f.title = true) (m : Nat) (hm0 : 0 < m)
+    (hm : m < (extRender showNat fa f).length) (ln : Int) :
+    ∃ s, extLoadOne pt pa ⟨(extRender showNat fa f).take m, ln⟩ = .raise .stop s := by
+  have hneg : ¬ ((f.atoms.length : Int) < 0) := by omega
+  simp only [extRender, List.length_cons, List.length_map] at hm
+  rcases m with _ | _ | k
+  · omega
+  · exact ⟨⟨[], ln + 1 + 1⟩, by simp [extRender, extLoadOne]⟩
+  · simp only [extRender, List.take_succ_cons]
+    obtain ⟨ln', hr⟩ := readN_take_short pa fa ha f.atoms k (by omega) (ln + 1 + 1)
+    exact ⟨⟨[], ln'⟩, by simp [extLoadOne, xyzLoadOne, hpt, hs, hneg, hr]⟩
+end ext
 end Iodata.Traj
